@@ -451,6 +451,17 @@ pub fn run_c13(_batch: &str, tape: &mut Tape, rep: &mut Report) {
                     if !ok_sub || !ordered {
                         rep.violate("sliding-window-wrong-contents", &sig, format!("emission at seq={} ts={}: got {:?}, events within {}s of the trigger are {:?} (boundary-inclusive {:?})", a.seq, a.ts_ms, w, size, must, may));
                     }
+                    // Whether an event stamped exactly `size` before the trigger belongs to the window is left open by the
+                    // statement, but membership is a function of the timestamp: events sharing that boundary timestamp are
+                    // either all in the emission or all out of it (never split).
+                    let boundary: Vec<i64> = p.hist.iter().filter(|h| h.ts_ms == lo).map(|h| h.seq).collect();
+                    let present = boundary.iter().filter(|s| w.contains(s)).count();
+                    if boundary.len() >= 2 {
+                        rep.probe("tie-exactly-on-the-window-boundary");
+                    }
+                    if present != 0 && present != boundary.len() {
+                        rep.violate("sliding-window-wrong-contents", &format!("{};boundary-ties-split", sig), format!("emission at seq={} ts={}: events {:?} all carry the boundary timestamp {} but only {} of them are in the emission {:?}", a.seq, a.ts_ms, boundary, lo, present, w));
+                    }
                 }
             }
             Kind::SlidingCount(size, slide) => {
